@@ -1,6 +1,7 @@
 import MjProof.Lemmas.SolverCert
 import MjProof.Lemmas.PrimalSearch
 import MjProof.Lemmas.IslandSep
+import MjProof.Lemmas.MakeImpedance
 import Mathlib.Algebra.Order.Star.Real
 /-
 C10  Constraint solvers return the optimum of the documented problem.
@@ -27,6 +28,11 @@ Newton, CG and PGS: checks/c10.py).
                               is the global minimiser (what `mj_fwdConstraint` relies on when it solves per island);
                               `island_partition_checker_sound`: the executable check of Model/IslandSep.lean, which the
                               driver runs on the real output of `mj_island`, decides exactly these hypotheses
+  cone_block_gradIneq_documented_impedance   the hypothesis `GradIneq` of the certificates holds for an elliptic cone block whose
+                              regularisers follow the documented impedance law of `mj_makeImpedance` (R[i+1] = R[i]/impratio,
+                              R[i+j+1] = R[i+1]·friction[0]²/friction[j]², mu = friction[0]·sqrt(R[i+1]/R[i]), D = 1/R), for any
+                              impratio and any positive, possibly anisotropic friction; the driver compares the engine's real
+                              efc_R / efc_D / contact.mu with that law on every solve (Model/ConeImp.lean)
   primalSearch_checked / primalEval_is_cost_difference / primalSearch_checked_decreases_cost /
   primal_monotone_partial / warmstart_picks_cheaper   (models: Model/SolverCert.lean, lemmas: Lemmas/PrimalSearch.lean)
 -/
@@ -347,6 +353,38 @@ example : partitionOk (n := 2) (m := 1) (fun i j => i == j) (fun _ j => j == 0)
     (fun j => if j = 0 then some (0 : Fin 1) else none) (fun _ => some 0) none (fun r => r) = true ∧
   partitionOk (n := 2) (m := 1) (fun i j => i == j) (fun _ _ => true)
     (fun j => if j = 0 then some (0 : Fin 1) else none) (fun _ => some 0) none (fun r => r) = false := by decide
+
+/-! ### cone blocks: the certificate hypothesis follows from the documented impedance law -/
+
+open MjProof.Constraint in
+/-- **Elliptic cone blocks satisfy the certificate hypothesis under the documented impedance law.**  For a contact of
+    dimension `fr.length + 2` with `R[i] = R0 > 0`, friction coefficients `f0 :: fr > 0` (possibly all different) and ANY
+    `impratio`, let `R`, `mu` be what the model of `mj_makeImpedance` produces (`impEll`: `R[i+1] = R0/impratio`,
+    `R[i+j+1] = R[i+1]·f0²/friction[j]²`, `mu = f0·sqrt(R[i+1]/R0)`) and `D = 1/R`.  Then the cone cost of
+    `mj_constraintUpdate_impl` (model `ellBlock`: `blkCost`) with the returned forces satisfies the supporting-hyperplane
+    inequality at every pair of residuals — the hypothesis `GradIneq` of the certificate theorems for this block.  The driver
+    checks on the engine's real `efc_R`, `efc_D`, `contact.mu` that they ARE the output of that law (`ConeImp.deviation`);
+    a regulariser that breaks `R[j]·friction[j]² = const` makes primal (Newton, CG) and dual (PGS) solvers solve different
+    problems. -/
+theorem cone_block_gradIneq_documented_impedance {R0 f0 : ℝ} (hR0 : 0 < R0) (hf0 : 0 < f0) (ir : ℝ) (fr : List ℝ)
+    (hfr : ∀ f ∈ fr, 0 < f) (x0 : ℝ) (x : Fin (fr.length + 1) → ℝ) (z0 : ℝ) (z : Fin (fr.length + 1) → ℝ) :
+    blkCost (1 / R0) (impMu R0 ir f0) (fun i => 1 / impRt R0 ir f0 fr i) (impW f0 fr) z0 z +
+        (-(blkForceN (1 / R0) (impMu R0 ir f0) (impW f0 fr) z0 z)) * (x0 - z0) +
+        ∑ i, (-(blkForceT (1 / R0) (impMu R0 ir f0) (fun i => 1 / impRt R0 ir f0 fr i) (impW f0 fr) z0 z i)) * (x i - z i) ≤
+      blkCost (1 / R0) (impMu R0 ir f0) (fun i => 1 / impRt R0 ir f0 fr i) (impW f0 fr) x0 x :=
+  blk_lower (impMu_pos hR0 hf0 ir) (by positivity) (fun i => impEll_rel hR0 hf0 ir fr hfr i) x0 x z0 z
+
+open MjProof.Constraint in
+/-- the cost and forces in the previous theorem are those of the executable model of the cone block -/
+theorem cone_block_model (D0 mu : ℝ) {k : ℕ} (D w : Fin k → ℝ) (j0 : ℝ) (jar : Fin k → ℝ) :
+    ((ellBlock D0 j0 mu (tsOf D w jar)).terms).sum = blkCost D0 mu D w j0 jar ∧
+    (ellBlock D0 j0 mu (tsOf D w jar)).force = blkForceN D0 mu w j0 jar :: List.ofFn (blkForceT D0 mu D w j0 jar) :=
+  ⟨ellBlock_terms_sum D0 mu D w j0 jar, ellBlock_force D0 mu D w j0 jar⟩
+
+/-- non-vacuity: anisotropic friction `0.8, 0.3, 0.01` and `impratio = 3` -/
+example : (0 : ℝ) < 2 ∧ (0 : ℝ) < 0.8 ∧ ∀ f ∈ ([0.3, 0.01] : List ℝ), 0 < f := by
+  refine ⟨by norm_num, by norm_num, ?_⟩
+  intro f hf; simp at hf; rcases hf with h | h <;> rw [h] <;> norm_num
 
 /-! ### line search, acceptance and warm start (model: Model/SolverCert.lean, lemmas: Lemmas/PrimalSearch.lean) -/
 
